@@ -43,6 +43,14 @@ pub struct Case {
     /// the answer of a catalog GET reaches its caller as a separate schedulable event
     #[serde(default)]
     pub late_responses: bool,
+    /// the race starts from the legacy two-file layout (chunks/metadata.json + time-index.json, no
+    /// catalog.json yet): the first load of every client goes through the fall-back path and the
+    /// first write creates the catalog
+    #[serde(default)]
+    pub legacy_start: bool,
+    /// how many writes of other clients overtake the victim between its read and its write (0 = 1)
+    #[serde(default)]
+    pub overtakes: u8,
 }
 
 const NPATHS: u8 = 8;
@@ -168,9 +176,22 @@ pub fn exec(case: &Case) -> Outcome {
                 }
                 apply_model(&mut model, &op, "setup");
             }
+            if case.legacy_start && !case.initial.is_empty() {
+                // what an upgraded deployment finds: the two legacy files, written by the client's own
+                // compatibility paths, and no unified catalog
+                let md = setup.load_chunk_metadata().await.expect("set-up load");
+                setup.save_chunk_metadata(&md).await.expect("set-up legacy save");
+                setup.rebuild_time_index().await.expect("set-up legacy index");
+                if let Some(p) = core.find_path("catalog.json") {
+                    use object_store::ObjectStore;
+                    let _ = core.node(99).delete(&object_store::path::Path::from(p.as_str())).await;
+                    out.class("starts-from-the-legacy-two-file-layout");
+                }
+            }
         }
         let setup_versions = core.versions().len();
         core.set_late_responses(case.late_responses);
+        core.set_victim_overtakes(case.overtakes as u32 % 4);
         core.set_scheduled(true);
 
         // ---- clients ----
@@ -384,7 +405,7 @@ pub fn exec(case: &Case) -> Outcome {
         }
 
         // (c) every version consistent
-        for v in versions.iter().filter(|v| v.path.ends_with("catalog.json")) {
+        for (vi, v) in versions.iter().enumerate().filter(|(_, v)| v.path.ends_with("catalog.json")) {
             match serde_json::from_slice::<MetadataCatalog>(&v.data) {
                 Ok(cat) => {
                     if let Err(e) = catalog_consistent(&cat) {
@@ -397,7 +418,8 @@ pub fn exec(case: &Case) -> Outcome {
                     return out;
                 }
             }
-            if !v.conditional {
+            // (the set-up's legacy files are written through the client's test-convenience path, which is unconditional)
+            if !v.conditional && vi >= setup_versions {
                 out.set_fail("unconditional-catalog-write", format!("catalog version etag {} was written with an unconditional PUT", v.etag));
                 return out;
             }
@@ -482,7 +504,7 @@ fn strategy(t: Tier) -> BoxedStrategy<Case> {
         prop_oneof![2 => Just(None), 1 => (0u8..6).prop_map(Some)],
         prop::collection::vec((0u8..NPATHS, 0i8..20), 0..5),
     )
-        .prop_map(|(clients, schedule, victim, initial)| Case { clients, schedule, victim, initial, readers: vec![], late_responses: false })
+        .prop_map(|(clients, schedule, victim, initial)| Case { clients, schedule, victim, initial, readers: vec![], late_responses: false, legacy_start: false, overtakes: 0 })
         .boxed()
 }
 
@@ -490,7 +512,7 @@ pub fn def() -> PropDef {
     PropDef {
         id: "C02",
         level: "exploration",
-        rule: "2-6 ObjectStoreMetadataClients, each 1-4 (thorough 6) ops from {register(8 paths, multi-bucket intervals), delete, complete_compaction, publish_compaction(1-3 sources -> a fresh path, must be refused unless every source is registered at its commit point)}, interleaved at object-store-request granularity by a generated schedule (incl. virtual-time waits and an optional victim that is always overtaken between GET and PUT); 0-4 chunks pre-registered; optionally a second task issues 1-3 catalog reads through the same client object while its mutations run, and optionally the answer of every catalog GET reaches its caller as a separate schedulable event (late responses). Non-trivial = at least one conditional PUT on catalog.json was answered with a conflict. Distinct = distinct canonical JSON of (ops, schedule, victim, initial).",
+        rule: "2-6 ObjectStoreMetadataClients, each 1-4 (thorough 6) ops from {register(8 paths, multi-bucket intervals), delete, complete_compaction, publish_compaction(1-3 sources -> a fresh path, must be refused unless every source is registered at its commit point)}, interleaved at object-store-request granularity by a generated schedule (incl. virtual-time waits and an optional victim that is always overtaken - by one, two or three writes of other clients - between GET and PUT); 0-4 chunks pre-registered (one case in five then starts from the legacy two-file layout - chunks/metadata.json + time-index.json, no catalog.json - so that every client's first load takes the fall-back path and the first write creates the catalog); optionally a second task issues 1-3 catalog reads through the same client object while its mutations run, and optionally the answer of every catalog GET reaches its caller as a separate schedulable event (late responses). Non-trivial = at least one conditional PUT on catalog.json was answered with a conflict. Distinct = distinct canonical JSON of (ops, schedule, victim, initial).",
         assumptions: &[
             "SimStore conforms to S3 conditional-write semantics (If-None-Match:* create, If-Match:etag update, strong read-after-write); it mirrors object_store::memory::InMemory",
             "a schedule is a total order of request effects (requests are atomic)",
@@ -499,7 +521,7 @@ pub fn def() -> PropDef {
             vec![Box::new(Sub::<Case> {
                 name: "race",
                 cases: |t| t.scale(400_000, 8),
-                strategy: |t| (strategy(t), prop_oneof![2 => Just(vec![]), 1 => prop::collection::vec(0u8..4, 1..4)], prop::bool::weighted(0.3)).prop_map(|(mut c, readers, late)| { c.readers = readers; c.late_responses = late; c }).boxed(),
+                strategy: |t| (strategy(t), prop_oneof![2 => Just(vec![]), 1 => prop::collection::vec(0u8..4, 1..4)], prop::bool::weighted(0.3), prop::bool::weighted(0.2), prop_oneof![3 => Just(0u8), 1 => Just(2u8), 1 => Just(3u8)]).prop_map(|(mut c, readers, late, legacy, overtakes)| { c.readers = readers; c.late_responses = late; c.legacy_start = legacy; c.overtakes = overtakes; c }).boxed(),
                 exec,
             })]
         },
